@@ -74,6 +74,8 @@ def configs(tier):
         add(d=2, q=3, m=1, mode=mode, imputer='default', storage='batch')
         add(d=2, q=2, m=1, mode=mode, imputer='joint', storage='batch', memoise=True)
         add(group='grow', d=2, q=1, mode=mode, imputer='joint', storage='batch')
+        add(group='long', d=2, q=2, T=5 if tier == 'quick' else 7, mode=mode, imputer='default', storage='interval', cap=2,
+            alpha_value='1/4', _cost=300)
         for st in ('interval', 'geometric', 'uniform'):
             for strat in ('joint', 'product'):
                 add(d=2, q=1, m=2, mode=mode, imputer=strat, storage=st, calls=2, _cost=1500)
@@ -89,6 +91,8 @@ def scenario(env, cfg):
     with patched(env):
         if cfg['group'] == 'grow':
             return _grow(env, cfg)
+        if cfg['group'] == 'long':
+            return _long(env, cfg)
         return _step(env, cfg)
 
 
@@ -258,3 +262,25 @@ def _grow(env, cfg):
         model.out = real_out
         stream.append((x, y))
     env.claim('label_set_grew', set(ex.marginal_prediction.keys()) == {'a', 'b'})
+
+
+def _long(env, cfg):
+    """a fresh explainer over T real calls (default-value imputer: no background draws, d! orders per call); before every
+    call the running statistics are read through the explainer, after it they are compared with the reference"""
+    cfg = dict(cfg, state='fresh', m=0)
+    b = build_incremental(env, IncrementalSage, cfg)
+    ex, names, model = b['ex'], b['names'], b['model']
+    b['bigger'] = False
+    for t in range(cfg['T']):
+        x, y = sym_row(env, names, f"x{t}"), env.real(f"y{t}")
+        if t >= 1:
+            N = t - 1
+            pre_vals = {'imp': {f: (ex.importance_values.get(f, 0), N) for f in names},
+                        'var': {f: (ex.variances.get(f, 0), N) for f in names},
+                        'marg': (ex._marginal_loss_tracker.get(), N), 'model': (ex._model_loss_tracker.get(), N),
+                        'mpred': {l: (v, N) for l, v in ex._marginal_prediction_tracker.get().items()}}
+            b['rows_now'] = list(ex._storage.get_data()[0])
+        b['calls_before'] = len(model.calls)
+        guarded(env, 'explain_one', ex.explain_one, x, y)
+        if t >= 1:
+            _reference_and_claims(env, b, pre_vals, x, y, tag=f"_t{t + 1}")
